@@ -122,6 +122,73 @@ def run_snap(case, budget=2.0):
     return None
 
 
+def run_fuzz_snap(case, budget=2.0):
+    """Generated argument values (source text from c13's generator)."""
+    sw = sweeper()
+    vals = []
+    for a in case["args"]:
+        o = sw.run_src(a, {}, budget)
+        if o[0] != "value":
+            return None
+        vals.append(o[1])
+    if case.get("shared") and len(vals) >= 2:
+        vals[1] = vals[0]
+    bindings = {f"p{k}": v for k, v in enumerate(vals)}
+    if case.get("fn"):
+        fn = None
+        for label, f, names in sw.functions:
+            if label == case["fn"]:
+                fn = f
+                break
+        if fn is None:
+            return None
+        bindings["f"] = fn
+        parts_ = []
+        for k in range(len(vals)):
+            nm = case["names"][k]
+            parts_.append(f"{nm} = p{k}" if nm else f"p{k}")
+        src = "f(" + ", ".join(parts_) + ")"
+        label = case["fn"]
+        name = label.split("->")[-1].split(":")[-1]
+        # a named target (append(element = 1, lst = l)) is still the target
+        target_ok = name in MUTATORS
+        may_return_arg = name in RETURNS_ARGUMENT
+        targets = {0}
+        if target_ok and case["names"] and any(case["names"]):
+            targets = set(range(len(vals)))
+    else:
+        src = c13.form_src(case["form"], len(vals))
+        label = "form:" + case["form"]
+        target_ok = case["form"] in MUTATING_FORMS
+        may_return_arg = _returns_argument_form(case["form"])
+        targets = {0}
+    if case.get("shared"):
+        targets = targets | {1}
+    before = [sw.snapshot(v) for v in vals]
+    out = sw.run_src(src, bindings, budget)
+    if out[0] == "timeout":
+        return None
+    after = [sw.snapshot(v) for v in vals]
+    desc = c13.describe_fuzz(case)
+    mutable = (sw.cv.ValueList, sw.cv.ValueSet, sw.cv.ValueMap,
+               sw.cv.ValueObject)
+    if out[0] == "value" and not may_return_arg:
+        for k, v in enumerate(vals):
+            if out[1] is v and isinstance(v, mutable):
+                return Finding(f"{label}|returns-its-argument",
+                               f"{desc}: the result is the very object "
+                               f"passed as argument {k}")
+    for k, (b, a) in enumerate(zip(before, after)):
+        if b == a:
+            continue
+        if target_ok and k in targets:
+            continue
+        return Finding(f"{label}|mutates-arg{k}",
+                       f"{desc}: argument {k} was {_show(b)} and is "
+                       f"{_show(a)} afterwards")
+    return None
+
+
 def _returns_argument_form(form):
     if form in RETURNS_ARGUMENT_FORMS:
         return True
@@ -581,6 +648,9 @@ def prop(case):
     if k in ("call", "form"):
         budget = float(os.environ.get("VF_CASE_BUDGET", "20"))
         return run_snap(case, budget)
+    if k == "fuzz":
+        return run_fuzz_snap(case, float(os.environ.get("VF_CASE_BUDGET",
+                                                        "20")))
     if k == "heap":
         want = [c13_dec(x) for x in case["expected"]]
         return run_scenario(case["lines"], case["names"], expected=want)
@@ -671,6 +741,56 @@ def part_heap(part, n, steps):
     part.hyp(tapes(600), body, n)
 
 
+def part_fuzz(part, n):
+    """Functions and forms applied to generated argument values (nested
+    containers, containers of containers, callbacks that see the elements),
+    snapshotted before and after."""
+    sw = sweeper()
+    fns = [(label, names) for label, f, names in sw.functions
+           if label.split("->")[-1].split(":")[-1] not in c13.NO_FUZZ]
+
+    def container_arg(ch):
+        return ch.choice(c13.RICH_COLLECTIONS[:-2])
+
+    def body(tape):
+        ch = TapeChooser(tape)
+        if ch.bool(0.75):
+            label, names = fns[ch.int(0, len(fns) - 1)]
+            declared = [x for x in names if not x.endswith("...")]
+            rest = any(x.endswith("...") for x in names)
+            top = 3 if rest else min(3, len(declared))
+            k = ch.int(1, max(1, top))
+            args = [container_arg(ch) if ch.bool(0.5) else c13.gen_arg(ch)
+                    for _ in range(k)]
+            argnames = [None] * k
+            if ch.bool(0.15) and declared:
+                # all arguments by name, in a shuffled order
+                order = ch.shuffle(declared[:k])
+                if len(order) == k:
+                    argnames = order
+            case = {"kind": "fuzz", "fn": label, "args": args,
+                    "names": argnames}
+        else:
+            form = ch.choice(c13.FORMS)
+            args = [container_arg(ch) if ch.bool(0.5) else c13.gen_arg(ch)
+                    for _ in range(c13.form_arity(form))]
+            case = {"kind": "fuzz", "form": form, "args": args}
+        if len(case["args"]) >= 2 and ch.bool(0.1):
+            case["shared"] = True
+        part.count()
+        part.nontriv((case.get("fn") or case.get("form"),
+                      tuple(case["args"]), tuple(case.get("names") or ())))
+        part.cls("fuzz:" + ("call" if case.get("fn") else "form"),
+                 c13.describe_fuzz(case) if part.evaluations % 50 == 0
+                 else None)
+        f = run_fuzz_snap(case)
+        if f is not None:
+            part.collect(f, case)
+        return None
+    part.hyp(tapes(64), body, n, shrink=False)
+    sw.close()
+
+
 def part_literal(part):
     part.count()
     part.distinct(2)
@@ -687,6 +807,7 @@ def parts(tier, seed):
         ps += [(f"heap-{i}", part_heap, {"n": 1500, "steps": 16})
                for i in range(5)]
         ps += [("literal", part_literal, {})]
+        ps += [(f"fuzz-{i}", part_fuzz, {"n": 5000}) for i in range(6)]
     else:
         ps = [(f"sweep-fn-{i}", part_sweep_functions,
                {"shard": i, "nshards": 20, "sample3": 1.0})
@@ -696,4 +817,5 @@ def parts(tier, seed):
         ps += [(f"heap-{i}", part_heap, {"n": 20000, "steps": 24})
                for i in range(6)]
         ps += [("literal", part_literal, {})]
+        ps += [(f"fuzz-{i}", part_fuzz, {"n": 120000}) for i in range(8)]
     return ps
